@@ -245,6 +245,9 @@ func parent() {
 			if per > 20000 {
 				per = 20000
 			}
+			if f.PerTask > 0 && per > f.PerTask {
+				per = f.PerTask
+			}
 			for lo := g.Lo; lo < g.Hi; lo += per {
 				hi := lo + per
 				if hi > g.Hi {
@@ -340,7 +343,13 @@ func parent() {
 		}
 	}
 	sort.SliceStable(jobs, func(i, j int) bool { return work[jobs[i].t.Family] < work[jobs[j].t.Family] })
-	all := append(lpJobs, jobs...)
+	// the cheap families (a few worker-seconds each) go first, then the link-service products, then
+	// the big odometer families: on a loaded machine the deadline then cuts only the latter
+	nSmall := 0
+	for nSmall < len(jobs) && work[jobs[nSmall].t.Family] < 20000000 {
+		nSmall++
+	}
+	all := append(append(append([]*job{}, jobs[:nSmall]...), lpJobs...), jobs[nSmall:]...)
 
 	var wg sync.WaitGroup
 	// BFS over frame sequences runs concurrently with the enumeration
@@ -425,7 +434,7 @@ func parent() {
 		"build_s":                   tBuild.Seconds(),
 		"workers":                   enum.Workers(),
 		"ulimit_v_kib":              ulimitKB,
-		"mem_bound":                 fmt.Sprintf("%d*len + %d KiB + input-independent cost of the entry (measured on the empty input) + harness-side reader construction", memPerByte, memConst>>10),
+		"mem_bound":                 fmt.Sprintf("%d*len + %d KiB + input-independent cost of the entry (measured on the empty input) + harness-side reader construction; stream entries that hand frames to a consumer: + 1 KiB per delivered frame", memPerByte, memConst>>10),
 		"fixed_alloc_entries":       d.Fixed,
 		"notes":                     ps.notes,
 		"cases_not_a_case":          ps.skipped,
@@ -433,10 +442,11 @@ func parent() {
 		"alloc_single_measurements": ps.precise,
 	}
 	assumptions := []string{
-		"input space is the stated finite families (all byte strings of length <=2 on every entry; all 3-byte strings on the byte-level decoders [quick] / every decoder with the contiguous reader [thorough]; all strings over the 21-symbol TLV alphabet up to length 4 on the core entries and length 5 [quick] / 5-6 [thorough] on every decoder; every single structure-aware mutation of every seed; pairs for packet-level seeds in thorough; LpPacket header products; frame sequences to depth 2/3); longer or differently shaped inputs are not covered",
+		"input space is the stated finite families (all byte strings of length <=2 on every entry; all 3-byte strings on the byte-level decoders [quick] / every decoder with the contiguous reader [thorough]; all strings over the 21-symbol TLV alphabet up to length 4 on the core entries and length 5 [quick] / 5-6 [thorough] on every decoder; every single structure-aware mutation of every seed; pairs for packet-level seeds in thorough; LpPacket header products; frame sequences to depth 2/3; single frames holding every ordered pair / triple of 21 classes of top-level TLV, pairs also as an LpPacket fragment; frames of 8799..131072 bytes; 224 [quick] / 1148 [thorough] TLV header forms at a frame boundary followed by more than 32+2 maximum packets of traffic); longer or differently shaped inputs are not covered",
 		"allocation is measured as runtime.MemStats.TotalAlloc growth of the single-threaded worker (exact: mcaches are flushed); an input-independent allocation of an entry (e.g. the 281600-byte stream buffer) is measured on the empty input and not charged",
 		"a worker death is attributed through the worker's progress marker and believed only after the single case reproduces it in 3 fresh workers; after " + fmt.Sprint(groupDeathLimit) + " deaths in one family group the rest of the group is abandoned (exhaustive=false)",
-		"hangs: a call that does not return within 20 s (60 s x3 on confirmation) or, for the scripted stream readers, 100000 consecutive zero-length reads",
+		"hangs: a call that does not return within 20 s (60 s x3 on confirmation) or, for the scripted stream readers, 100000 consecutive zero-length reads (a scripted connection answers Read(empty buffer) with (0, nil) like a net.Conn: the loop state then repeats exactly)",
+		"allocation of the stream entries that hand every frame to a consumer (link service, ReadPacket): bound + 1 KiB per delivered frame (the consumer's input-independent cost is paid per frame; a 300 kB stream of 2-byte blocks is 150 000 frames)",
 		"forwarding threads are recording stubs; PIT/CS/FIB are therefore never reached by a frame in this check",
 		"link-service histories (single frames, sequences, bursts, reconfiguration histories): every frame is copied into ONE receive buffer per face, whose earlier content is overwritten first (a transport owns its buffer between calls); C04.state compares the link-service dump and a deep fingerprint of every packet already handed to a recording thread before/after a frame that fails to decode or has contradictory fragmentation fields; the stream entries use readTlvStream's own buffer",
 	}
